@@ -418,6 +418,11 @@ class OneShotList(SymObj):
     def py_truth(self, I):
         return True
 
+    def py_contains(self, I, x):
+        # `x in iterator` consumes the iterator (up to the first match; modelled as exhausted): a second test finds nothing
+        items = self.py_iter(I)
+        return I.disj([I.eq(x, y) for y in items])
+
 
 class SymSet(SymObj):
     """Set given by a membership predicate (callable value-term -> z3 Bool) over elements of one kind."""
@@ -1158,6 +1163,28 @@ class Interp:
         if hasattr(v, "py_unpack"):
             return v.py_unpack(self, n)
         raise OutOfSubset(f"unpack of {v!r}")
+
+    def st_Delete(self, st, env, mod):
+        for tgt in st.targets:
+            if isinstance(tgt, ast.Subscript):
+                obj = self.eval(tgt.value, env, mod)
+                key = self.eval_slice(tgt.slice, env, mod)
+                if isinstance(obj, SymObj) and hasattr(obj, "py_delitem"):
+                    obj.py_delitem(self, key)
+                elif isinstance(obj, (dict, list)) and not isinstance(key, (ZV, SymObj)):
+                    try:
+                        del obj[key]
+                    except (KeyError, IndexError) as e:
+                        raise PyRaise(ExcV(type(e).__name__))
+                else:
+                    raise OutOfSubset("del of a subscript on this object")
+            elif isinstance(tgt, ast.Name):
+                if tgt.id in env.d:
+                    del env.d[tgt.id]
+                else:
+                    raise OutOfSubset("del of a non-local name")
+            else:
+                raise OutOfSubset(f"del target {type(tgt).__name__}")
 
     def st_If(self, st, env, mod):
         c = self.truth(self.eval(st.test, env, mod))
